@@ -313,13 +313,18 @@ sexp sexp_string_count (sexp ctx, sexp self, sexp ch, sexp str, sexp start, sexp
   if (sexp_not(end)) end = sexp_make_fixnum(sexp_string_size(str));
   else sexp_assert_type(ctx, sexp_fixnump, SEXP_FIXNUM, end);
   c = sexp_unbox_character(ch);
+  if (sexp_unbox_fixnum(start) < 0
+      || sexp_unbox_fixnum(start) > (sexp_sint_t)sexp_string_size(str))
+    return sexp_user_exception(ctx, self, "string-count: start index out of range", start);
+  if (sexp_unbox_fixnum(end) > (sexp_sint_t)sexp_string_size(str))
+    return sexp_user_exception(ctx, self, "string-count: end index out of range", end);
+  if (sexp_unbox_fixnum(end) <= sexp_unbox_fixnum(start))
+    return SEXP_ZERO;
 #if SEXP_USE_UTF8_STRINGS
   if (c < 128) {
 #endif
     s = (unsigned char*)sexp_string_data(str) + sexp_unbox_fixnum(start);
     e = (unsigned char*)sexp_string_data(str) + sexp_unbox_fixnum(end);
-    if (e > (unsigned char*)sexp_string_data(str) + sexp_string_size(str))
-      return sexp_user_exception(ctx, self, "string-count: end index out of range", end);
     /* fast case for ASCII chars */
     while (s < e) if (*s++ == c) count++;
 #if SEXP_USE_UTF8_STRINGS
@@ -362,11 +367,17 @@ sexp sexp_string_offset_op (sexp ctx, sexp self, sexp str) {
 sexp sexp_utf8_ref (sexp ctx, sexp self, sexp bv, sexp offset) {
   sexp_assert_type(ctx, sexp_bytesp, SEXP_BYTES, bv);
   sexp_assert_type(ctx, sexp_fixnump, SEXP_FIXNUM, offset);
+  if (sexp_unbox_fixnum(offset) < 0
+      || sexp_unbox_fixnum(offset) >= (sexp_sint_t)sexp_bytes_length(bv))
+    return sexp_user_exception(ctx, self, "utf8-ref: offset out of range", offset);
   unsigned char *p=(unsigned char*)sexp_bytes_data(bv) + sexp_unbox_fixnum(offset);
   if (*p < 0x80)
     return sexp_make_character(*p);
   else if ((*p < 0xC0) || (*p > 0xF7))
     return sexp_user_exception(ctx, NULL, "utf8-ref: invalid utf8 byte", offset);
+  else if (sexp_unbox_fixnum(offset) + (*p < 0xE0 ? 2 : *p < 0xF0 ? 3 : 4)
+           > (sexp_sint_t)sexp_bytes_length(bv))
+    return sexp_user_exception(ctx, self, "utf8-ref: truncated utf8 sequence", offset);
   else if (*p < 0xE0)
     return sexp_make_character(((p[0]&0x3F)<<6) + (p[1]&0x3F));
   else if (*p < 0xF0)
@@ -381,6 +392,9 @@ sexp sexp_utf8_next (sexp ctx, sexp self, sexp bv, sexp offset, sexp end) {
   sexp_assert_type(ctx, sexp_bytesp, SEXP_BYTES, bv);
   sexp_assert_type(ctx, sexp_fixnump, SEXP_FIXNUM, offset);
   sexp_assert_type(ctx, sexp_fixnump, SEXP_FIXNUM, end);
+  if (sexp_unbox_fixnum(offset) < 0
+      || sexp_unbox_fixnum(end) > (sexp_sint_t)sexp_bytes_length(bv))
+    return sexp_user_exception(ctx, self, "utf8-next: offset out of range", offset);
   if (sexp_unbox_fixnum(offset) >= sexp_unbox_fixnum(end)) return SEXP_FALSE;
   initial = ((unsigned char*)sexp_bytes_data(bv) + sexp_unbox_fixnum(offset))[0];
   res = sexp_unbox_fixnum(offset) + (initial < 0xC0 ? 1 : initial < 0xE0 ? 2 : 3 + ((initial>>4)&1));
@@ -393,6 +407,9 @@ sexp sexp_utf8_prev (sexp ctx, sexp self, sexp bv, sexp offset, sexp start) {
   sexp_assert_type(ctx, sexp_bytesp, SEXP_BYTES, bv);
   sexp_assert_type(ctx, sexp_fixnump, SEXP_FIXNUM, offset);
   sexp_assert_type(ctx, sexp_fixnump, SEXP_FIXNUM, start);
+  if (sexp_unbox_fixnum(start) < 0
+      || sexp_unbox_fixnum(offset) > (sexp_sint_t)sexp_bytes_length(bv))
+    return sexp_user_exception(ctx, self, "utf8-prev: offset out of range", offset);
   unsigned char *p=(unsigned char*)sexp_bytes_data(bv);
   i = sexp_unbox_fixnum(offset) - 1;
   limit = sexp_unbox_fixnum(start);
